@@ -14,6 +14,7 @@ import TraitsVerif.Lemmas.DelegRun
 import TraitsVerif.Lemmas.DelegChain
 import TraitsVerif.Lemmas.DelegNotify
 import TraitsVerif.Lemmas.DelegWitness
+import TraitsVerif.Lemmas.DelegSrc
 namespace TraitsVerif.Props.C11
 open TraitsVerif TraitsVerif.Model.Deleg TraitsVerif.Model.Deleg.Witness
 
@@ -604,5 +605,155 @@ example : walk protoPool (protoPool.obj 1).cls.pfx 100 1 (mkDelegate [] false) n
   decide
 
 example : (protoPool.obj 1).dict nx = some 7 ∧ (protoPool.obj 1).fwd nx = none := by decide
+
+/-! ## The model is the source
+
+`harness/translate/delegsrc.py` turns the text of the delegation code of the working tree into terms of
+the deep embedding `Model/DelegSrc.lean` (`Generated/DelegSrc.lean`, regenerated by every check).  The
+theorems below say that the hand-written functions of `Model/Delegate.lean` — about which every
+theorem above speaks — are the interpretation of these terms, for all inputs.  A behaviour-changing
+edit of the translated source breaks one of them, also on inputs no generator produces. -/
+
+section Source
+open TraitsVerif.Model.DelegSrc
+open TraitsVerif.Generated.DelegSrc (attrNameHandlers getattrDelegate setattrDelegate initDelegate removeListener)
+
+/-- `delegate_attr_name_{name,prefix,prefix_name,class_name}` and the handler table (ctraits.c): the
+target name rule of the model is what the handler selected by `prefix_type` computes. -/
+theorem C11_attr_name_is_source (d : DelegInfo) (clsPfx : Option Name) (n : Name) :
+    attrNameSrc attrNameHandlers d clsPfx n = some (attrName d clsPfx n) :=
+  attrName_is_source d clsPfx n
+
+/-- The order of `delegate_attr_name_handlers[]`, the clamp and the argument order of `_trait_delegate`,
+and the argument order `Delegate.as_ctrait` calls it with. -/
+theorem C11_handler_table_is_source :
+    Generated.DelegSrc.handlerNames = ["delegate_attr_name_name", "delegate_attr_name_prefix",
+      "delegate_attr_name_prefix_name", "delegate_attr_name_class_name"]
+    ∧ Generated.DelegSrc.clampHi = 3 ∧ Generated.DelegSrc.clampTo = 0
+    ∧ Generated.DelegSrc.traitDelegateArgs = ["UUip", "delegate_name", "delegate_prefix", "prefix_type", "modify_delegate"]
+    ∧ Generated.DelegSrc.asCtraitArgs = ["self.delegate", "self.prefix", "self.prefix_type", "self.modify"] := by
+  decide
+
+/-- `getattr_delegate` (ctraits.c): reading a deferring attribute (no value in `__dict__`) is the
+interpretation of the C function, `tp_getattro` of the delegate being the read one level down. -/
+theorem C11_read_is_source (p : Pool) (f : Nat) (o : ObjId) (n : Name) :
+    read p (f + 1) o n =
+      match (p.obj o).dict n with
+      | some v => .ok v
+      | none =>
+        match (p.obj o).cls.trait n with
+        | .plain _ dflt _ => .ok dflt
+        | .python => .error .attributeError
+        | .defer d => execGet getattrDelegate p (some (read p f)) o n d := by
+  cases hd : (p.obj o).dict n with
+  | some v => simp [Model.Deleg.read, hd]
+  | none =>
+    cases ht : (p.obj o).cls.trait n with
+    | plain vid dflt cmp => simp [Model.Deleg.read, hd, ht]
+    | python => simp [Model.Deleg.read, hd, ht]
+    | defer d => simpa using read_defer_is_source p f o n d hd ht
+
+/-- The recursion guard of `getattr_delegate` (fix ec4908f of finding F21): with the interpreter's
+recursion limit reached the C function raises RecursionError before it calls into the delegate. -/
+theorem C11_read_limit_is_source (p : Pool) (o x : ObjId) (n : Name) (d : DelegInfo)
+    (hx : (p.obj o).deleg = some x) :
+    execGet getattrDelegate p none o n d = .error .runtimeError :=
+  read_limit_is_source p o x n d hx
+
+/-- `setattr_delegate` (ctraits.c): assignment / deletion through a deferring attribute — the chain
+walk with its 100-iteration bound, the object `delegate_attr_name` is called with, which trait's
+`setattr` runs on which object and name, the `TRAIT_MODIFY_DELEGATE` split, the listener removal after
+a successful local store, and every error exit — is the interpretation of the C function. -/
+theorem C11_write_is_source (E : Env) (k : Nat) (p : Pool) (o : ObjId) (n : Name) (d : DelegInfo) (v : Option Val) :
+    setDefer E k p o n d v = execSet setattrDelegate E k p o n d v :=
+  setDefer_is_source E k p o n d v
+
+/-- `has_traits_setattro` dispatches a deferring attribute to `setattr_delegate`: on such an attribute
+`step` *is* the interpreted C function (assignment and deletion). -/
+theorem C11_step_is_source (E : Env) (k : Nat) (p : Pool) (o : ObjId) (n : Name) (d : DelegInfo) (v : Val)
+    (htd : (p.obj o).cls.trait n = .defer d) :
+    step E k p (.set o n v) = execSet setattrDelegate E k p o n d (some v)
+    ∧ step E k p (.del o n) = execSet setattrDelegate E k p o n d none := by
+  simp only [step, htd, C11_write_is_source, and_self]
+
+/-- `C11_delegates_write` read on the source: the interpreted `setattr_delegate` on a DelegatesTo
+attribute whose target is a typed attribute of the delegate is the assignment of that attribute on
+the delegate. -/
+theorem C11_delegates_write_source (E : Env) (i : Nat) (p : Pool) (o : ObjId) (n : Name) (d : DelegInfo) (y : ObjId)
+    (vid : Nat) (dflt : Val) (cmp : Cmp) (v : Val)
+    (htd : (p.obj o).cls.trait n = .defer d) (hm : d.modify = true) (hy : (p.obj o).deleg = some y)
+    (hx : (p.obj y).cls.trait (targetName (p.obj o).cls.pfx n d) = .plain vid dflt cmp) :
+    execSet setattrDelegate E i p o n d (some v) = step E i p (.set y (targetName (p.obj o).cls.pfx n d) v) := by
+  rw [← (C11_step_is_source E i p o n d v htd).1]
+  exact (C11_delegates_write E i p o n d y vid dflt cmp v htd hm hy hx).1
+
+/-- `Delegate.__init__` (trait_types.py): metadata `_prefix`, `self.prefix`, `self.prefix_type`,
+`self.modify`; `DelegatesTo` passes `modify=True`, `PrototypedFrom` `modify=False`. -/
+theorem C11_delegate_init_is_source (dname pfx : Name) (modify : Bool) :
+    initDelegateSrc initDelegate dname pfx modify = some (mkDelegate pfx modify)
+    ∧ Generated.DelegSrc.modifyDelegatesTo = true ∧ Generated.DelegSrc.modifyPrototypedFrom = false :=
+  ⟨mkDelegate_is_source dname pfx modify, rfl, rfl⟩
+
+/-- `get_delegate_pattern` followed by `_trait_delegate_name` (has_traits.py): the `on_trait_change`
+name the forwarder of `n` is registered under is `" <d>:" ++ listenedName`, for every delegate
+reference attribute `dname`, prefix as given, class prefix and non-empty attribute name. -/
+theorem C11_pattern_is_source (dname raw : Name) (modify : Bool) (clsPfx : Option Name) (n : Name) (hn : n ≠ []) :
+    (delegatePatternSrc Generated.DelegSrc.delegatePattern dname raw n).bind
+        (traitDelegateNameSrc Generated.DelegSrc.traitDelegateName clsPfx n)
+      = some ((' ' :: dname ++ [':']) ++ listenedName clsPfx n (mkDelegate raw modify)) := by
+  have hraw : (mkDelegate raw modify).raw = raw := by
+    unfold mkDelegate
+    split
+    · rfl
+    · split
+      · rfl
+      · simp only []
+        split <;> rfl
+  have hne : Model.Deleg.delegatePattern n raw ≠ [] := by
+    unfold Model.Deleg.delegatePattern
+    split
+    · exact hn
+    · split
+      · simp [hn]
+      · assumption
+  rw [delegatePattern_is_source]
+  have := traitDelegateName_is_source clsPfx n (' ' :: dname ++ [':']) (Model.Deleg.delegatePattern n raw) hne
+  simp only [Option.bind_some, listenedName, hraw]
+  simpa using this
+
+/-- `_remove_trait_delegate_listener` (has_traits.py) on the listener table entry of `(o, n)`: `unlink`
+(after a local store) and `relink` (after the local value was deleted) are its interpretation;
+`hook` stands for `on_trait_change` / `ListenerItem.register`. -/
+theorem C11_listener_table_is_source (p : Pool) (o : ObjId) (n : Name) (d : DelegInfo) (evs : List Event) (h : Option ObjId) :
+    LSt.ofFwd (((unlink p o n).obj o).fwd n) = removeListenerSrc removeListener true h ((p.obj o).fwd n)
+    ∧ LSt.ofFwd (((relink p o n d evs).pool.obj o).fwd n)
+        = removeListenerSrc removeListener false (hook p o n d).1 ((p.obj o).fwd n) := by
+  rw [unlink_fwd_self, relink_fwd_self, removeListener_remove_is_source, removeListener_restore_is_source]
+  exact ⟨rfl, rfl⟩
+
+/-- `_init_trait_delegate_listener` (has_traits.py): the listener is registered under
+`_trait_delegate_name(name, pattern)` on `self`, reports `name + notify_name[len(target):]` (= `name`)
+through `trait_property_changed`, and is stored in the table under `name`; `__listener_traits__` is
+filled with `get_delegate_pattern(name, trait)` at its two sites. -/
+theorem C11_init_listener_is_source :
+    Generated.DelegSrc.initListener = [
+      "name_pattern = self._trait_delegate_name(name, pattern)",
+      "target_name_len = len(name_pattern.split(':')[-1])",
+      "@weak_arg(self) ; def notify(self, object, notify_name, old, new): ;     self.trait_property_changed(name + notify_name[target_name_len:], old, new)",
+      "self.on_trait_change(notify, name_pattern, target=self)",
+      "self.__dict__.setdefault(ListenerTraits, {})[name] = notify"]
+    ∧ Generated.DelegSrc.patternSites = ["get_delegate_pattern(name, trait)", "get_delegate_pattern(name, value)"] :=
+  ⟨rfl, rfl⟩
+
+/-- The interpretation is not vacuous: on the F20 pool, assigning `o1.x` (PrototypedFrom, local value 7)
+through the interpreted `setattr_delegate` stores locally and drops the forwarder … -/
+example : ((execSet setattrDelegate idEnv 3 protoPool 1 nx (mkDelegate [] false) (some 9)).pool.obj 1).dict nx = some 9 := by
+  decide
+
+/-- … and reading `o0.x` through the interpreted `getattr_delegate` yields the local value of `o1`. -/
+example : execGet getattrDelegate protoPool (some (read protoPool 3)) 0 nx (mkDelegate [] true) = .ok 7 := by
+  decide
+
+end Source
 
 end TraitsVerif.Props.C11
